@@ -3,7 +3,7 @@ CONFIG = {
     "audit": "BsVerif/Audit/C02.lean",
     "bsv_cmd": "c02",
     "technique": "Lean 4 invariant proof (text = ELF image + INT3 at registered breakpoints; temporaries never survive a step; single-step executes once) + differential correspondence of every poked text byte on live debuggees + /proc/<pid>/mem text-vs-ELF oracle + native output/exit oracle",
-    "level_text": "The Lean model of the registry, of temporary breakpoints and of the step-command bookkeeping is proved (for every trace, text, breakpoint set, choice of temporaries and command history) to keep the text equal to the on-disk image except for an INT3 at exactly the user breakpoints and the documented entry breakpoint, to leave no temporary behind a completed step, and to execute each instruction of the native trace exactly once in order. It is tied to the real debugger on every run by comparing, per command, the stop/landing pc and every text byte written through PTRACE_POKE (in-process ptrace interposer) on seeded histories of break/remove/continue/stepi/step/next/finish; independently, after every command the live text is read through /proc/<pid>/mem and compared with the ELF file, and output + exit status are compared with a native run.",
+    "level_text": "The Lean model of the registry, of temporary breakpoints and of the step-command bookkeeping is proved (for every trace, text, breakpoint set, choice of temporaries and command history) to keep the text equal to the on-disk image except for an INT3 at exactly the user breakpoints and the documented entry breakpoint, to leave no temporary behind a completed step, and to execute each instruction of the native trace exactly once in order; all of it also with context-only commands (frame selection, backtrace, reading locals) interleaved at will (C02_text_at_prompt_ctx, C02_native_equivalence_ctx, C02_ctx_ops_invisible_steps: the step commands start from the thread's real pc whatever frame is focused). It is tied to the real debugger on every run by comparing, per command, the stop/landing pc and every text byte written through PTRACE_POKE (in-process ptrace interposer) on seeded histories of break/remove/continue/stepi/step/next/finish with frame selections and inspections in between; independently, after every command the live text is read through /proc/<pid>/mem and compared with the ELF file, and output + exit status are compared with a native run.",
     "level_note": "Trusted: Lean kernel + 3 standard axioms; abstract machine assumptions (DESIGN 2.1); the set of temporaries and the number of instruction steps of a step command are taken from the observed ptrace traffic (the theorems hold for every such choice; where steps SHOULD land is C03); watch/call/restart/detach are covered by C14/C16/C11; single thread.",
     "trivial_answers": ["ok", "ok p=-", "none p=-", "err p=-", "bad-op", ""],
     "runs": {"quick": [{"n": 24, "timeout": 900}], "thorough": [{"n": 800, "timeout": 12000}]},
